@@ -73,6 +73,7 @@ type Scenario struct {
 	BumpTarget  *ObjRef                `json:"bumpTarget,omitempty"`
 	Orders      [][]int                `json:"orders"`
 	Foreign     Foreign                `json:"foreign"`
+	Tier        string                 `json:"tier,omitempty"`
 }
 
 const (
